@@ -293,6 +293,21 @@ let key_spec b =
 
 let game_snap (g : game) = Printf.sprintf "%s | hist %s" (snap_of g.gboard) (String.concat " " (List.rev !hist))
 
+(* cumulative perft of the rules (move sequences of lengths 1..d+1), remembered per position and ply:
+   the same position is counted under several pool sizes and depths *)
+let perft_memo : (string * int, int) Hashtbl.t = Hashtbl.create 256
+let perft_total (b : board) (d : int) : int =
+  let id = snap_of b in
+  let p = abstract b in
+  let total = ref 0 in
+  for k = 1 to d + 1 do
+    let v = match Hashtbl.find_opt perft_memo (id, k) with
+      | Some v -> v
+      | None -> let v = int_of_n (perft (nat_of_int k) p) in Hashtbl.replace perft_memo (id, k) v; v in
+    total := !total + v
+  done;
+  !total
+
 let exec (op : string) : unit =
   emit op;
   let toks = List.filter (fun s -> s <> "") (String.split_on_char ' ' op) in
@@ -437,17 +452,12 @@ let exec (op : string) : unit =
     | "perft2" :: d :: _ ->
         with_board (fun b ->
             let d = int_of_string d in
-            let p = abstract b in
-            let total = ref 0 in
-            for k = 1 to d + 1 do total := !total + int_of_n (perft (nat_of_int k) p) done;
-            Printf.sprintf "perft2 %d %d %d" d !total !total)
+            let total = perft_total b d in
+            Printf.sprintf "perft2 %d %d %d" d total total)
     | "perft" :: d :: _ ->
         with_board (fun b ->
             let d = int_of_string d in
-            let p = abstract b in
-            let total = ref 0 in
-            for k = 1 to d + 1 do total := !total + int_of_n (perft (nat_of_int k) p) done;
-            Printf.sprintf "perft %d %d" d !total)
+            Printf.sprintf "perft %d %d" d (perft_total b d))
     | "book" :: line ->
         let h = List.map (fun t -> (n_of_int (parse_sq (String.sub t 0 2)), n_of_int (parse_sq (String.sub t 2 2)))) line in
         let next = book_next bOOK h in
